@@ -274,6 +274,7 @@ const (
 	cmdQUIT
 	cmdKILL
 	cmdPART
+	cmdPRIVMSG
 )
 
 func ircStepRuns(entry, tier string, panics bool, extra ...interface{}) []HarnessRun {
@@ -301,6 +302,10 @@ func ircStepRuns(entry, tier string, panics bool, extra ...interface{}) []Harnes
 	mode := ircRun("client-mode-compound", entry, mergeParams(base, "role", 1, "cmdname", cmdMODE, "K", 2, "modelen", 4, "modeprefix", 1))
 	mode.Panics = panics
 	runs = append(runs, mode)
+	// a text longer than one IRC line (the 510-byte cut)
+	long := ircRun("client-privmsg-long", entry, mergeParams(base, "role", 1, "cmdname", cmdPRIVMSG, "K", 2, "longtext", 505))
+	long.Panics = panics
+	runs = append(runs, long)
 	return runs
 }
 
@@ -362,6 +367,8 @@ func init() {
 				base := map[string]int{"S": 2, "C": 2, "L": 3, "K": 2, "P": 1, "role": 3}
 				runs = append(runs, ircRun("services-join-2chan", "verifHarness_C12_step", mergeParams(base, "cmdname", cmdJOIN)))
 				runs = append(runs, ircRun("services-part-2chan", "verifHarness_C12_step", mergeParams(base, "cmdname", cmdPART)))
+				// a session that quits while it is the only member of one channel and shares another
+				runs = append(runs, ircRun("client-quit-2chan", "verifHarness_C12_step", mergeParams(base, "role", 1, "cmdname", cmdQUIT, "K", 1)))
 			}
 			return runs
 		},
